@@ -38,6 +38,9 @@ pub enum Op {
     Rotate { steps: isize, level: usize, seed: u64 },
     /// encode and decode on the shared encoder (immutable objects; exercised for the "encoder or context shared" clause)
     Encode { seed: u64 },
+    /// read-only queries on the shared context: step -> Galois element resolution on the key-level
+    /// Galois tool, the modulus-chain walk, parameter lookups ("context shared by several threads")
+    ContextQuery { steps: isize },
 }
 
 impl Op {
@@ -55,6 +58,7 @@ impl Op {
             Op::Encrypt { .. } => "encrypt",
             Op::Encode { .. } => "encode-decode",
             Op::Rotate { .. } => "rotate-by-steps",
+            Op::ContextQuery { .. } => "context-query",
         }
     }
     pub fn to_json(&self) -> Value {
@@ -71,6 +75,7 @@ impl Op {
             Op::Encrypt { sym, seed } => json!({"op": "encrypt", "sym": sym, "seed": seed}),
             Op::Encode { seed } => json!({"op": "encode-decode", "seed": seed}),
             Op::Rotate { steps, level, seed } => json!({"op": "rotate-by-steps", "steps": steps, "level": level, "seed": seed}),
+            Op::ContextQuery { steps } => json!({"op": "context-query", "steps": steps}),
         }
     }
     pub fn from_json(v: &Value) -> Option<Op> {
@@ -92,6 +97,7 @@ impl Op {
             "encrypt" => Op::Encrypt { sym: b("sym")?, seed: u("seed")? },
             "encode-decode" => Op::Encode { seed: u("seed")? },
             "rotate-by-steps" => Op::Rotate { steps: v["steps"].as_i64()? as isize, level: u("level")? as usize, seed: u("seed")? },
+            "context-query" => Op::ContextQuery { steps: v["steps"].as_i64()? as isize },
             _ => return None,
         })
     }
@@ -298,6 +304,24 @@ pub fn exec_op(op: &Op, sh: &SharedObjs, su: &Setup) -> Vec<u8> {
             let gk = su.galois.as_ref().expect("galois keys prepared at setup");
             let r = if w.spec.scheme == CKKS { sh.eval.rotate_vector_new(&c, *steps, gk) } else { sh.eval.rotate_rows_new(&c, *steps, gk) };
             ser_obj(Obj::Ct(r), &sh.ctx)
+        }
+        Op::ContextQuery { steps } => {
+            let mut out = Vec::new();
+            let kcd = sh.ctx.key_context_data().unwrap();
+            let tool = kcd.verif_galois_tool();
+            out.extend_from_slice(&(tool.get_elt_from_step(*steps) as u64).to_le_bytes());
+            for e in tool.get_elts_from_steps(&[*steps, 1, -*steps]) {
+                out.extend_from_slice(&(e as u64).to_le_bytes());
+            }
+            out.extend_from_slice(&(tool.get_elts_all().len() as u64).to_le_bytes());
+            // walk the chain from the first data level down
+            let mut cd = sh.ctx.first_context_data();
+            while let Some(c) = cd {
+                out.extend_from_slice(&(c.parms().coeff_modulus().len() as u64).to_le_bytes());
+                out.extend_from_slice(&(c.chain_index() as u64).to_le_bytes());
+                cd = c.next_context_data();
+            }
+            out
         }
         Op::Encode { seed } => {
             let mut r = Prng::new(*seed);
@@ -536,6 +560,65 @@ fn gen_large_scenario(rng: &mut Prng, run_seed: u64) -> Option<Scn> {
     Some(Scn { spec, ent: prng::mix(run_seed, 0xC17, 1), threads, policy: if rng.coin() { Policy::WriterPref } else { Policy::ReaderPref } })
 }
 
+/// "Hammer" scenario for the supplementary free-running mode: four threads repeat one kind of call
+/// on the shared objects a few hundred times, each thread with its own argument (step count,
+/// Galois element, ciphertext size, message). A race between two plain loads or stores — state
+/// that is shared without any lock, which the baton scheduler cannot pre-empt — needs this many
+/// truly parallel repetitions to show; the oracle is the usual one (every call returns what the
+/// sequential execution returns).
+fn gen_hammer_scenario(rng: &mut Prng, run_seed: u64) -> Option<Scn> {
+    let opts = SpecOpts {
+        schemes: vec![BFV, BGV, CKKS],
+        ns: vec![32, 64],
+        min_primes: 2,
+        max_primes: 3,
+        qbits: vec![30, 40, 50],
+        tbits: vec![13, 17],
+        batching: true,
+    };
+    let spec = gen::draw_spec(rng, &opts)?;
+    let n = spec.n;
+    let nlevels = spec.q.len() - 1;
+    let nthreads = 4;
+    let family = rng.below(8);
+    let half = (n / 2) as isize;
+    let step_pool = [1isize, 2, -1, 5, 3, -2, half - 1];
+    let mut threads = Vec::new();
+    for t in 0..nthreads {
+        let level = rng.usize_below(nlevels.max(1));
+        let seed = rng.next_u64() >> 1;
+        let my_step = step_pool[(t + rng.usize_below(3)) % step_pool.len()];
+        let my_step = if my_step.unsigned_abs() as isize >= half || my_step == 0 { 1 } else { my_step };
+        let my_elt = 2 * rng.usize_below(n) + 1;
+        let ops: Vec<Op> = match family {
+            // rotations by a per-thread step count (evaluator + context-level Galois tool)
+            0 | 1 => (0..1200).map(|_| Op::Rotate { steps: my_step, level, seed }).collect(),
+            // cheap read-only queries on the shared context, many more of them
+            2 => (0..20000).map(|k| if k % 50 == 49 { Op::Rotate { steps: my_step, level, seed } } else { Op::ContextQuery { steps: my_step } }).collect(),
+            // Galois key generation for a per-thread element / step
+            3 => (0..100).map(|_| Op::Galois { elts: vec![my_elt], save_seed: t % 2 == 0 }).collect(),
+            // automorphisms by a per-thread element
+            4 => (0..600)
+                .map(|_| if spec.scheme == BFV { Op::ApplyGaloisPlain { elt: my_elt, level, seed } } else { Op::ApplyGalois { elt: my_elt, level, seed } })
+                .collect(),
+            // encoder and encryptor
+            5 => (0..400).map(|k| if k % 3 == 2 { Op::Encrypt { sym: t % 2 == 0, seed } } else { Op::Encode { seed: seed.wrapping_add(k as u64) >> 1 } }).collect(),
+            // decryptions of a per-thread size
+            6 => (0..400).map(|_| Op::Decrypt { size: 2 + t, level, ntt: spec.scheme != BFV, seed }).collect(),
+            // key generator: relinearization, public and key-switching keys
+            _ => (0..100)
+                .map(|k| match (k + t) % 3 {
+                    0 => Op::Relin { save_seed: t % 2 == 0 },
+                    1 => Op::Pk { save_seed: t % 2 == 1 },
+                    _ => Op::KSwitch { save_seed: false, seed },
+                })
+                .collect(),
+        };
+        threads.push(ops);
+    }
+    Some(Scn { spec, ent: prng::mix(run_seed, 0xC17, 2), threads, policy: if rng.coin() { Policy::WriterPref } else { Policy::ReaderPref } })
+}
+
 fn gen_scenario(rng: &mut Prng, run_seed: u64) -> Option<Scn> {
     let opts = SpecOpts {
         schemes: vec![BFV, BGV, CKKS],
@@ -680,16 +763,22 @@ fn sequential_violation(scn: &Scn, err: &str) -> Option<Violation> {
     })
 }
 
+/// Hammer bursts want the cores for themselves (their whole point is true parallelism of four
+/// threads); every other execution holds this gate shared, a hammer burst holds it exclusively.
+/// Only timing is affected: no result depends on it.
+static HAMMER_GATE: std::sync::RwLock<()> = std::sync::RwLock::new(());
+
 struct Budget {
     scenarios: usize,
     schedules: usize,
     free_runs: usize,
+    hammer_bursts: usize,
 }
 
 fn budget(tier: Tier) -> Budget {
     match tier {
-        Tier::Quick => Budget { scenarios: driver::scale(640), schedules: 24, free_runs: 8 },
-        Tier::Thorough => Budget { scenarios: driver::scale(16000), schedules: 96, free_runs: 24 },
+        Tier::Quick => Budget { scenarios: driver::scale(640), schedules: 24, free_runs: 8, hammer_bursts: 6 },
+        Tier::Thorough => Budget { scenarios: driver::scale(16000), schedules: 96, free_runs: 24, hammer_bursts: 12 },
     }
 }
 
@@ -700,8 +789,17 @@ fn one_run(i: usize, run_seed: u64, b: &Budget) -> RunOut {
     let mut srng = root.fork("scenario");
     let mut built = None;
     let large = i % 64 == 33;
+    let hammer = i % 64 == 17;
     for _ in 0..10 {
-        let Some(scn) = (if large { gen_large_scenario(&mut srng, run_seed) } else { gen_scenario(&mut srng, run_seed) }) else { continue };
+        let Some(scn) = (if large {
+            gen_large_scenario(&mut srng, run_seed)
+        } else if hammer {
+            gen_hammer_scenario(&mut srng, run_seed)
+        } else {
+            gen_scenario(&mut srng, run_seed)
+        }) else {
+            continue;
+        };
         let su = match setup(&scn) {
             Ok(su) => Arc::new(su),
             Err(e) => {
@@ -745,13 +843,17 @@ fn one_run(i: usize, run_seed: u64, b: &Budget) -> RunOut {
     let mut schedrng = root.fork("sched");
     let mut evals = 0u64;
     let mut first_trace = None;
-    let nsched = if large { 3 } else { b.schedules };
+    let nsched = if large { 3 } else if hammer { 2 } else { b.schedules };
     if large {
         out.count("probe.large_ring_many_elements_scenario", 1);
+    }
+    if hammer {
+        out.count("probe.hammer_scenario_free_running", 1);
     }
     for k in 0..nsched {
         let (strategy, sname) = draw_strategy(&mut schedrng, scn.threads.len(), rf.points as usize);
         let sseed = schedrng.next_u64();
+        let _gate = HAMMER_GATE.read().unwrap_or_else(|e| e.into_inner());
         let ex = match execute(&scn, &su, &rf, strategy.clone(), sseed) {
             Ok(e) => e,
             Err(_) => {
@@ -792,8 +894,15 @@ fn one_run(i: usize, run_seed: u64, b: &Budget) -> RunOut {
     }
     // supplementary net: a burst of truly parallel executions of the same scenario (no baton), for
     // races inside synchronisation the lock wrapper cannot see; judged by the same oracle
-    for _ in 0..(if large { 1 } else { b.free_runs }) {
-        let Ok(ex) = execute(&scn, &su, &rf, Strategy::FreeRun, 0) else { continue };
+    for _ in 0..(if large { 1 } else if hammer { b.hammer_bursts } else { b.free_runs }) {
+        let ex = if hammer {
+            let _gate = HAMMER_GATE.write().unwrap_or_else(|e| e.into_inner());
+            execute(&scn, &su, &rf, Strategy::FreeRun, 0)
+        } else {
+            let _gate = HAMMER_GATE.read().unwrap_or_else(|e| e.into_inner());
+            execute(&scn, &su, &rf, Strategy::FreeRun, 0)
+        };
+        let Ok(ex) = ex else { continue };
         evals += 1;
         out.count("strategy.free-run", 1);
         if let Some((class, part, detail)) = &ex.bad {
@@ -870,7 +979,7 @@ pub fn run(tier: Tier, seed: u64) -> i32 {
         tier,
         seed,
         level: "exploration",
-        rule: "seeded scenarios (scheme, N in {8,16,32}, 2-4 primes, 2-4 threads x 1-3 calls among decrypt of sizes 2..6, noise budget, relin/public/Galois/key-switching key generation, apply_galois on ciphertexts and plaintexts, encrypt) x seeded schedules (uniform, sticky, PCT-style, stall-a-writer) under a reader- or writer-preferring RwLock model. evaluations = executed schedules. distinct_nontrivial = distinct (scenario, schedule trace) pairs in which two different threads had overlapping activity windows on the same lock".into(),
+        rule: "seeded scenarios (scheme, N in {8,16,32}, 2-4 primes, 2-4 threads x 1-3 calls among decrypt of sizes 2..6, noise budget, relin/public/Galois/key-switching key generation, apply_galois on ciphertexts and plaintexts, encrypt) x seeded schedules (uniform, sticky, PCT-style, stall-a-writer) under a reader- or writer-preferring RwLock model; plus, per scenario, a burst of free-running (truly parallel, not schedule-controlled) executions, and one scenario in 64 is a 'hammer' (4 threads x 100..20000 repetitions of one kind of call with per-thread arguments, free-running with the cores to itself) for state shared without any lock. evaluations = executed schedules. distinct_nontrivial = distinct (scenario, schedule trace) pairs in which two different threads had overlapping activity windows on the same lock".into(),
         assumptions: vec![
             "between two lock events a thread touches only private data, immutable shared data, or data protected by the lock it holds (data-race-free code): interleaving at lock events reaches every observable behaviour".into(),
             "RwLock fairness is modelled as either reader- or writer-preferring; starvation is not modelled".into(),
